@@ -2,6 +2,7 @@ import Mathlib.Tactic
 import Mathlib.Logic.Function.Iterate
 import ExponaxModel.Model.Loops
 import ExponaxModel.Proofs.LoopsGenEq
+import ExponaxModel.Proofs.SmallGaps2Aux
 /-
 C14 — rollout, repeat and the wrapper steppers equal the naive loop.
 `Loops.*` is the hand-written mirror of exponax/_utils.py (`lax.scan` as a fold);
@@ -184,5 +185,39 @@ theorem C14_generated_utilities {S A : Type} (f : S → S) (fa : S → A → S) 
 
 theorem C14_generated_coverage : Gen.LoopsGen.generated_loops.length = 9 := by
   rw [Gen.LoopsGen.generated_loops_pinned]; rfl
+
+
+/-! ### auxiliary inputs consumed in order WITH `include_init`, and the regenerated aux rollout (wrong-length aux is rejected) -/
+
+open Exponax.SmallGaps2 in
+theorem C14_aux_order_with_init :
+    ∀ {S A : Type} (f : S → A → S) (n : ℕ) (u0 : S) (aux : List A),
+      n ≤ aux.length →
+        (Loops.rolloutAux f n true false u0 aux).length = n + 1 ∧
+          ∀ (i : ℕ) (h : i < (Loops.rolloutAux f n true false u0 aux).length),
+            (Loops.rolloutAux f n true false u0 aux)[i] = List.foldl f u0 (List.take i aux) :=
+  @Exponax.SmallGaps2.aux_order_init
+
+open Exponax.SmallGaps2 in
+theorem C14_generated_aux_sequence_with_init :
+    ∀ {S A : Type} (f : S → A → S) (n : ℕ) (u0 : S) (aux : List A),
+      aux.length = n →
+        ∃ trj,
+          Gen.LoopsGen.rollout_aux_sequence f n true u0 aux = some trj ∧
+            trj.length = n + 1 ∧ trj[0]? = some u0 ∧ ∀ i < n, trj[i + 1]? = some (List.foldl f u0 (List.take (i + 1) aux)) :=
+  @Exponax.SmallGaps2.generated_aux_sequence_init
+
+open Exponax.SmallGaps2 in
+theorem C14_generated_aux_sequence :
+    ∀ {S A : Type} (f : S → A → S) (n : ℕ) (b : Bool) (u0 : S) (aux : List A),
+      (aux.length ≠ n → Gen.LoopsGen.rollout_aux_sequence f n b u0 aux = none) ∧
+        (aux.length = n →
+          ∃ trj,
+            Gen.LoopsGen.rollout_aux_sequence f n b u0 aux = some trj ∧
+              trj = Loops.rolloutAux f n b false u0 aux ∧
+                (trj.length = n + if b = true then 1 else 0) ∧
+                  ∀ (i : ℕ) (h : i < trj.length), trj[i] = List.foldl f u0 (List.take (i + if b = true then 0 else 1) aux)) :=
+  @Exponax.SmallGaps2.generated_aux_sequence
+
 
 end Exponax
